@@ -280,12 +280,14 @@ func (c *Collector) evictStale() {
 		}
 	}
 
-	// remove stale
-	keys := make([]HotKey, 0, len(c.keys))
+	// remove stale. Only the counters which are not updated in the current
+	// minute are halved, so the keys may be out of order now, insert them
+	// again to keep the descending order.
+	res := newSortedHotKeys(c.capacity)
 	for _, key := range c.keys {
 		if key.Counter.Value() != 0 {
-			keys = append(keys, key)
+			res.Insert(key)
 		}
 	}
-	c.keys = keys
+	c.keys = res.Data()
 }
